@@ -174,11 +174,17 @@ def hypsB (o : BuildOpts) (ps : List Policy) (req : Request) : Bool :=
 def customEntriesDistinctB (o : BuildOpts) (ps : List Policy) : Bool :=
   Decidable.decide ((((ps.filter (·.action == .custom)).flatMap (customEntries o)).map (·.1)).Nodup)
 
-/-- The generated names of one provider's CUSTOM policies never carry another provider's id prefix. -/
+/-- Along the chain: the generated names of a provider's CUSTOM policies never carry the id prefix of a
+    provider whose filters come later. -/
+def isolatedAlongB (o : BuildOpts) (cps : List Policy) : List Str → Bool
+  | [] => true
+  | pr :: t =>
+    (cps.all fun p => p.provider != pr ||
+      t.all fun q => (customEntries o p).all fun e => !hasPrefix (extPrefix q) e.1) &&
+    isolatedAlongB o cps t
+
 def customIsolatedB (o : BuildOpts) (ps : List Policy) : Bool :=
-  let cps := ps.filter (·.action == .custom)
-  cps.all fun p => (cps.map (·.provider)).all fun pr =>
-    pr == p.provider || (customEntries o p).all fun e => !hasPrefix (extPrefix pr) e.1
+  isolatedAlongB o (ps.filter (·.action == .custom)) (sortDedup ((ps.filter (·.action == .custom)).map (·.provider)))
 
 def hypsAllB (o : BuildOpts) (ps : List Policy) (req : Request) : Bool :=
   hypsB o ps req && customEntriesDistinctB o ps
